@@ -239,6 +239,8 @@ class C01(Prop):
             stt.count("node:" + n[0] + (":" + str(n[1]) if n[0] in ("un", "bin", "red", "unp") else ""))
         try:
             f = build(node)
+        except (MemoryError, RecursionError):
+            raise
         except Exception as e:
             if is_core:
                 raise Violation("core-fragment-raised:" + innermost_funsor_frame(e), f"{type(e).__name__}: {str(e)[:200]} for {show(node)}")
